@@ -24,6 +24,11 @@ func (q *IndexNotificationQueue) VerifDump() map[string][]VerifItem {
 	for k := range out {
 		h, _ := q.items.Load(k)
 		for _, it := range h.Slice {
+			if it == nil {
+				// a hole in a heap array: reported as an item without context or channel
+				out[k] = append(out[k], VerifItem{})
+				continue
+			}
 			out[k] = append(out[k], VerifItem{Revision: it.revision, Ctx: it.ctx, Ch: it.waitCh})
 		}
 	}
